@@ -1028,6 +1028,47 @@ def vmap_kwargs_sig(ctx, rule="SIG-kwargs"):
             ctx.bad(rule, construct, "modular_vmap(...)(..., **kwargs)",
                     "pjax.modular_vmap.wrapped accepts positional arguments only: any keyword argument through Vmap raises TypeError", func_loc(ctx, dotted))
     ctx.need(n >= 5 or accepts_kw, f"SIG-kwargs: only {n} Vmap methods forwarding **kwargs to the vectorised callee found (floor 5)")
+    if accepts_kw:
+        # what happens to them: jax.vmap maps keyword arguments along their leading axis; the function returned by modular_vmap must hand them to
+        # the interpreter as mapped operands (axis 0) and give them back to f by name - evaluated on a finite model, for three axis specifications
+        from ..absint import Model, Opq, Unknown
+        A, KW = ("param", "a_"), ("param", "kw_")
+        body = ev.apply_closure(clo, (("star", A),), ((None, KW),))
+        evals = [x for x in subterms(body or NONE) if is_call(x) and x[1][0] == "attr" and x[1][2] == "eval"]
+        wrapped_events = list(ev.last_closure_summary.events)
+        construct = "pjax.modular_vmap.wrapped (keyword arguments)"
+        problems = []
+        for ia, want_axes in ((0, (0, 0, 0)), (None, (None, None, 0)), ((0, None), (0, None, 0))):
+            m = Model(evaluator=ev)
+            m.bind(A, ("A", "B"))
+            m.bind(KW, {"k": "K"})
+            m.bind(("param", "in_axes"), ia)
+            m.bind(("param", "f"), Opq("f"))
+            live = []
+            try:
+                for g_, k_, pl_, ln_, q_ in wrapped_events:
+                    if k_ == "call" and pl_ in evals and m.live(g_):
+                        live.append(pl_)
+                if len(live) != 1:
+                    problems.append(f"[in_axes={ia!r}] {len(live)} interpreter runs on the keyword path")
+                    continue
+                args_, kwargs_ = m.args_of(live[0])
+            except Unknown as e:
+                raise AnalysisError(f"{construct}: cannot evaluate [in_axes={ia!r}]: {e}")
+            axes, fn, ops = args_[0], args_[4] if len(args_) > 4 else None, tuple(args_[5:])
+            if not (isinstance(axes, (tuple, list)) and tuple(axes) == want_axes and ops == ("A", "B", {"k": "K"})):
+                problems.append(f"[in_axes={ia!r}] the interpreter is run with axes {axes!r} on {ops!r}; expected {want_axes!r} on ('A', 'B', {{'k': 'K'}}) (keywords mapped along axis 0, as jax.vmap does)")
+                continue
+            try:
+                r = m.apply_value(fn, ["a", "b", {"k": "kk"}])
+            except Unknown as e:
+                raise AnalysisError(f"{construct}: cannot apply the wrapped function: {e}")
+            if r != Opq("call", Opq("f"), ("a", "b"), (("k", "kk"),)):
+                problems.append(f"[in_axes={ia!r}] the mapped function calls {r!r}, not f(a, b, k=kk)")
+        if problems:
+            ctx.bad(rule, construct, "keyword arguments mapped along axis 0 and passed back by name", "; ".join(dict.fromkeys(problems)), func_loc(ctx, "genjax.pjax.modular_vmap"))
+        else:
+            ctx.ok(rule, construct, "keywords travel as one mapped dictionary (axis 0) and reach f by name")
 
 
 # ====================================================================== Scan
